@@ -174,6 +174,11 @@
                                               "constants b[3]=(1;2;3); B[2][2]=((1,2);(3,4)); variables y[2]; constraints y=b(2:3); y=B(:,2); y(1)=b(2); y'=B(2,:); end", 2},
       {"mutable-constant-range-index-level3", "constants *b[4]=(1;2;3;4); *B[3][2]=((1,2);(3,4);(5,6)); variables y[2]; constraints y=b(3:4)+b(1:2); y=B(2:3,1); B(1:2,:)*y=b(2:3); end", NULL, 0.0,
                                               "constants b[4]=(1;2;3;4); B[3][2]=((1,2);(3,4);(5,6)); variables y[2]; constraints y=b(3:4)+b(1:2); y=B(2:3,1); B(1:2,:)*y=b(2:3); end", 3},
+      // (products of two CONSTANTS folded while the text is read: column * row is an outer product)
+      {"constant-outer-product-folded", "constants u[2]=(1;2); v[1][2]=(3,4); variables x,y; constraints x=(u*v)(1,2); y>=(u*v)(2,1); x+y<=(v*u); end", NULL, 0.0,
+                                        "variables x,y; constraints x=4; y>=6; x+y<=11; end", 0},
+      {"constant-outer-product-3x2", "constants u[3]=(1;2;5); v[1][2]=(3,4); variables x[2]; constraints x'=(u*v)(3,:); x(1)>=(u*v)(2,2); end", NULL, 0.0,
+                                        "variables x[2]; constraints x'=(15,20); x(1)>=8; end", 0},
       {"mutable-constant-range-index-level1", "constants *b[3]=(1;2;3); variables y[2]; constraints y=b(1:2); end", NULL, 0.0, "constants b[3]=(1;2;3); variables y[2]; constraints y=b(1:2); end", 1},
       {"mutable-constant-in-function", "constants *c=2; d=5; function g(y) return c*y+d; end variables x; constraints g(x)=0; c*x=1; g(x)-c*x=d; end", "c", 4.0,
                                        "constants c=4; d=5; function g(y) return c*y+d; end variables x; constraints g(x)=0; c*x=1; g(x)-c*x=d; end", 0},
